@@ -155,6 +155,17 @@ func genC09(tier string, r *rng, emit func(string)) {
 				emit(fmt.Sprintf("prog %s %s;new:rm:%d:50;dot:%d:%d:reuse.%d", dt, pre, n+1, ia, ib, next))
 				emit(fmt.Sprintf("prog %s %s;new:rm:%d:50;dot:%d:%d:reuse.%d", dt, pre, n-1, ia, ib, next))
 				emit(fmt.Sprintf("prog %s %s;new:rm:%s:50;dot:%d:%d:incr.%d", dt, pre, rs, ia, ib, next))
+				// both options: the product in the reuse tensor, added into the increment tensor; then
+				// allocations that would pick up a struct handed to the pool twice
+				emit(fmt.Sprintf("prog %s %s;new:rm:%s:50;new:rm:%s:70;dot:%d:%d:both.%d.%d;new:rm:2:0;slice:%d:0.1.1;new:rm:3:0", dt, pre, rs, rs, ia, ib, next, next+1, next+2))
+				if ta == "" {
+					// column-major operands and destinations
+					cpre := strings.Replace(pre, "new:rm:", "new:cm:", -1)
+					emit(fmt.Sprintf("prog %s %s;dot:0:1:safe", dt, cpre))
+					emit(fmt.Sprintf("prog %s %s;new:rm:%s:50;dot:0:1:reuse.2", dt, cpre, rs))
+					emit(fmt.Sprintf("prog %s %s;new:cm:%s:50;dot:0:1:reuse.2", dt, cpre, rs))
+					emit(fmt.Sprintf("prog %s %s;new:cm:%s:50;dot:0:1:reuse.2", dt, pre, rs))
+				}
 				emit(fmt.Sprintf("prog %s %s;new:rm:%s:50;dot:%d:%d:reuse.%d;dot:%d:%d:reuse.%d;bin:add:%d:%d:safe", dt, pre, rs, ia, ib, next, ia, ib, next, next, next))
 			}
 		}
